@@ -117,6 +117,7 @@ class DeterministicFiniteAutomaton(NondeterministicFiniteAutomaton):
             self._start_state = {}
         if start_state is not None:
             self._states.add(start_state)
+        self._register_transition_function_content()
 
     def add_start_state(self, state: Any) -> int:
         """ Set an initial state
